@@ -117,6 +117,9 @@ func main() {
 		}
 		sort.Strings(names)
 		for _, n := range names {
+			if strings.HasSuffix(n, "-ALL") {
+				continue // debugging aggregates would report every obligation twice
+			}
 			rs = append(rs, rules[n])
 		}
 		rep := lint.RunRules(prog, "*", rs, findings, "")
